@@ -453,9 +453,10 @@ def normalize_url(
         return result
 
     # TODO: check if works with `unsplit=False`
-    if strip_protocol or not has_protocol:
-        result = urlunsplit(result)[2:]
-    else:
-        result = urlunsplit(result)
+    result = urlunsplit(result)
+
+    # NOTE: without a scheme the string starts with "//", unless there is no host
+    if (strip_protocol or not has_protocol) and result.startswith("//"):
+        result = result[2:]
 
     return result
